@@ -101,6 +101,24 @@ Theorem T03_3_pipeline_invariant :
 Proof. exact pipeline_invariant. Qed.
 Print Assumptions T03_3_pipeline_invariant.
 
+(* T03.3' the same for the public entry point main.format_code, which wraps _format_code: a source
+   without a final line break is formatted with "\n" appended and the line break removed again *)
+Theorem T03_3_pipeline_invariant_entry_point :
+  forall (St : Type) (eqb : St -> St -> bool) (Pres : Type)
+         (skip_file is_blank valid : St -> bool) (indent_level : St -> nat)
+         (surface : Pres -> St -> Pres) (app : stage -> Pres -> St -> St) (minws : St -> St -> St)
+         (is_empty terminated : St -> bool) (add_nl : St -> St) (ends_lf : St -> bool) (drop_last : St -> St)
+         (n_multi max_file_passes : nat) (R : St -> St -> Prop),
+    (forall s, R s s) -> (forall a b c, R a b -> R b c -> R a c) ->
+    (forall st p s, R s (app st p s)) -> (forall o s, R s (minws o s)) ->
+    (forall s, R s (add_nl s)) -> (forall s, R s (drop_last s)) ->
+    forall safe keep p0 s0,
+      R s0 (format_code_outer St eqb Pres skip_file is_blank valid indent_level surface app minws
+                              is_empty terminated add_nl ends_lf drop_last
+                              n_multi max_file_passes safe keep p0 s0).
+Proof. exact pipeline_invariant_outer. Qed.
+Print Assumptions T03_3_pipeline_invariant_entry_point.
+
 (* T03.3 instantiated with "valid in => valid out": the full-strength statement for format_code is
    REFUTED in the model as soon as a whitespace pre-pass may break validity (no gate follows it on
    the early-return path) ... *)
